@@ -134,7 +134,7 @@ func (c *config) rewrite(node ast.Node) (ast.Node, error) {
 
 		// Now we make updates
 		for _, f := range x.Fields.List {
-			if c.excludePrivate && !ast.IsExported(fieldName(f)) {
+			if c.excludePrivate && !c.hasExportedName(f) {
 				continue
 			}
 			if f.Tag == nil {
@@ -155,6 +155,12 @@ func (c *config) rewrite(node ast.Node) (ast.Node, error) {
 			// No plenc tag. Either we explicitly exclude it `plenc:"-"`, or we give it a number `plenc:"12"`
 			name := "-"
 			if !c.isExcluded(tags) {
+				if len(f.Names) > 1 {
+					// A tag belongs to the whole declaration, so these fields
+					// would all be given the same index
+					recordError(f, fmt.Errorf("%d fields are declared together, so they cannot be given separate plenc indexes: declare them separately", len(f.Names)))
+					continue
+				}
 				if maxPlenc >= maxIndex {
 					recordError(f, fmt.Errorf("no plenc index left: the largest is %d", maxIndex))
 					continue
@@ -186,6 +192,17 @@ func (c *config) rewrite(node ast.Node) (ast.Node, error) {
 	}
 
 	return node, nil
+}
+
+// hasExportedName is true if any of the fields a declaration declares is
+// exported. A declaration like "a, B int" declares more than one field
+func (c *config) hasExportedName(f *ast.Field) bool {
+	for _, name := range f.Names {
+		if ast.IsExported(name.Name) {
+			return true
+		}
+	}
+	return len(f.Names) == 0 && ast.IsExported(fieldName(f))
 }
 
 // fieldName returns the name of a field. An embedded field has no name of its
